@@ -469,6 +469,10 @@ def run(ctx, res):
 
 
 def replay(ctx, data):
+    if "program" not in data:
+        # a broken-tie replay (no failing input): re-run the audit of the theorem file
+        import common
+        return bool(common.property_audit(ctx.prop)[4])
     p = data["program"]
     sig = data.get("sig", "")
     if sig.startswith("nest:assoc"):
